@@ -29,7 +29,7 @@ REQUIRED = {
     "acting_observations_checked": 200, "final_buffer_checks": 5,
     "routines_run": 19,
 }
-TIMEOUT = {"quick": 1500, "thorough": 3400}
+TIMEOUT = {"quick": 1500, "thorough": 7000}
 ASSUMPTIONS = [
     "vector environments: the reference is what the vector API returned",
     "MR.Q's buffer-internal filler rows are not add_sample calls (see C04)",
@@ -52,7 +52,7 @@ def make_script(rng, n=6):
 
 def gen_cases(tier, seed):
     rng = np.random.default_rng(seed + 101)
-    reps = 2 if tier == "quick" else 12
+    reps = 2 if tier == "quick" else 30
     cases = []
     for r in range(reps):
         for algo in ROUTINES:
